@@ -269,3 +269,36 @@ def c10_jobs(b, prop, tier, seed):
 PROPS['C10']['jobs'] = c10_jobs
 PROPS['C10']['rule'] += (' Plus the RPC layer: for generated interfaces every primitive-call index of the request writer, reply reader (SimpleMethodSender::SendMethod), '
                          'request reader and reply writer (dispatcher) is failed once with a rotating error code.')
+
+
+def fuzz_jobs(prop):
+    def f(b, p, tier, seed):
+        base = codec_jobs(b, p, tier, seed)
+        fz = b.build_codec('curated', 1, fuzz=True)
+        cb = b.build_codec('curated', 1)
+        if base is None or not fz or not cb:
+            return None
+        import subprocess
+        jobs = list(base)
+        runs = 50000 if tier == 'quick' else 3000000
+        per_shard = 2 if tier == 'quick' else 6
+        for i, bn in enumerate(fz):
+            # number of types in this shard
+            out = subprocess.run([cb[i], '--prop', p, '--list', '1'], capture_output=True, text=True).stdout
+            ntypes = max(1, len([l for l in out.splitlines() if l.strip()]))
+            for k in range(per_shard):
+                ti = (seed * 7 + i * 3 + k * 5) % ntypes
+                env = {'FUZZ_TYPE': str(ti), 'FUZZ_PROP': p}
+                args = ['-runs=%d' % runs, '-seed=%d' % (seed * 1000 + i * 16 + k + 1), '-max_len=512', '-timeout=30', '-rss_limit_mb=3000', '-print_final_stats=1',
+                        '-max_total_time=%d' % (60 if tier == 'quick' else 900)]
+                jobs.append(_job('codec:curated:%d' % i, bn, args, 'fuzz%02d_%d' % (i, ti), env=env, fuzz=True, replay_binary=cb[i], timeout=3000))
+        return jobs
+    return f
+
+
+PROPS['C02']['jobs'] = fuzz_jobs('C02')
+PROPS['C04']['jobs'] = fuzz_jobs('C04')
+PROPS['C02']['rule'] += (' Plus coverage-guided fuzzing (libFuzzer, ASan+UBSan): one process per (destination type, oracle), first byte selects reader kind and limit, seed corpus = reference '
+                         'encodings of the must-hit values; 16 type-workers x 50k executions in quick, 48 x 3M in thorough (wall-clock ceiling ends a campaign, it never produces a verdict).')
+PROPS['C04']['rule'] += (' Plus coverage-guided differential fuzzing (libFuzzer): arbitrary byte strings decoded by the library and by the reference decoder, per destination type.')
+SETUP_EXTRA.append(lambda b: b.build_codec('curated', 1, fuzz=True))
